@@ -465,6 +465,22 @@ func (cs *connState) WaitTag(t tag) {
 	<-ch
 }
 
+// maxReplyPayload returns the largest data payload of an Rread or Rreaddir
+// (size[4] type[1] tag[2] count[4] data[count]) that still fits in the
+// negotiated message size.
+func (cs *connState) maxReplyPayload() uint32 {
+	msize := atomic.LoadUint32(&cs.messageSize)
+	if msize == 0 {
+		// Default or not yet negotiated.
+		msize = maximumLength
+	}
+	const replyOverhead = headerLength + 4
+	if msize < replyOverhead {
+		return 0
+	}
+	return msize - replyOverhead
+}
+
 // handleRequest handles a single request.
 //
 // The recvDone channel is signaled when recv is done (with a error if
